@@ -488,6 +488,11 @@ func (r *run) judge(k int, lg *stepLog, res *result) {
 			case o.Until.Before(en.Ret.Until):
 				effect = "retention-shortened"
 			}
+			if effect == "" && targeted && lg.Kind == "retention" && !lg.sentUntil.IsZero() && !o.Until.Before(lg.sentUntil.Add(-24*time.Hour)) && !o.Until.Equal(lg.sentUntil) && !o.Until.Equal(en.Ret.Until) {
+				// the accepted request named an instant; what is stored is another one (not the previous value either)
+				add(i, en, "retention-stored-differs-from-the-date-sent", fmt.Sprintf("PutObjectRetention named %s (%s), GetObjectRetention answers %s",
+					lg.sentUntil.UTC().Format(time.RFC3339), lg.Request, o.Until.UTC().Format(time.RFC3339)))
+			}
 			if effect == "" {
 				if o.Mode != en.Ret.Mode || !o.Until.Equal(en.Ret.Until) {
 					en.Ret = o // strengthened
